@@ -7,7 +7,7 @@
    normalised Laplacian and the multi-order combination are covered by the correspondence/oracle. *)
 From Coq Require Import String ZArith QArith List Bool.
 From XV Require Import Base.Label Base.LSet Base.ODict Base.Attr Base.Outcome Model.Hypergraph Model.Hodge Model.Matrix
-  Proofs.HgViews Proofs.HgInv Proofs.HgStep Proofs.HodgeProofs Proofs.MatrixProofs Proofs.MultiorderProofs.
+  Proofs.HgViews Proofs.HgInv Proofs.HgStep Proofs.HodgeProofs Proofs.MatrixProofs Proofs.MultiorderProofs Proofs.TensorProofs.
 Import ListNotations.
 Open Scope Z_scope.
 
@@ -126,3 +126,18 @@ Example C12_nonvacuous :
   qform (laplacian s 1) (keys (h_node s)) (fun l => match l with LInt z => z | _ => 0 end) = 2.
 Proof. vm_compute. repeat split. Qed.
 Print Assumptions C12_nonvacuous.
+
+(* the adjacency tensor (unnormalised; the default divides it by order!): an entry is 1 exactly when its index tuple
+   enumerates, without repetition, the member positions of an edge of the order, else 0; it is symmetric under every
+   permutation of the indices; flattened it has N^(order+1) entries *)
+Theorem C12_adjacency_tensor : forall s d,
+  (forall idx, (tensor_entry s d idx = 1 <->
+                exists e m, In (e, m) (h_edge s) /\ length m = S d /\ length idx = S d /\ NoDup idx /\
+                            forall x, In x m -> In (node_pos s x) idx) /\
+               (tensor_entry s d idx = 0 \/ tensor_entry s d idx = 1)) /\
+  (forall idx idx', Permutation.Permutation idx idx' -> tensor_entry s d idx = tensor_entry s d idx') /\
+  length (adjacency_tensor_flat s d) = (length (h_node s) ^ S d)%nat.
+Proof.
+  intros s d. split; [intro idx; apply tensor_entry_spec|]. split; [intros idx idx'; apply tensor_symmetric|apply tensor_flat_length].
+Qed.
+Print Assumptions C12_adjacency_tensor.
